@@ -148,10 +148,20 @@ func init() {
 			}
 			mergeFaultCov(cov, tcov, "task_pass")
 			viols = append(viols, tviols...)
+			// third pass: the process was down while the node mined more than 2000 blocks (the
+			// start-up code has a fast-forward for wallets far behind): directed histories, ended
+			// by an orderly restart through the real start-up path, for four wallet-id orders
+			lcov, lviols, err := longOfflinePass(c)
+			if err != nil {
+				return nil, nil, nil, err
+			}
+			cov["long_offline_pass"] = lcov
+			viols = append(viols, lviols...)
 			cov["rule"] = "base histories = shortest history of every state of the C01 space (deliver / 12 block templates / reorgs) up to the base depth; for each, a dry run over the db seam counts the wallet-database commits n, then for EVERY k<n the history is re-run and the process is stopped before commit k (commit not applied, all volatile state dropped, later notifications lost); " +
 				"the wallet is then restarted on the same database through the real start-up path (new manager, NtfnsHandler.Start catch-up, follower + worker goroutines until idle, Stop) and all ledger queries are compared with the reference ledger of the node's final chain; distinct_nontrivial = distinct recovered observations"
 			return cov, []string{
 				"crash model = process stop between wallet-database commits (what C06 states); torn journal writes are goleveldb's contract",
+				"third pass (coverage.long_offline_pass): 5 directed histories in which the node mines 2052-2104 blocks while the wallet process is down (payments to the wallet among them; with an un-run import, a pending removal, a completed import), ended by an orderly restart, each for 4 world seeds (different orders of the wallet ids)",
 				"recovery runs with free-running goroutines until idle (20 s limit; a run that does not get idle is counted as inconclusive, never as a violation)",
 				"second pass (coverage.task_pass): histories with ImportWalletWithMnemonic, single rescan batches, RemoveWallet, the background removal run, NewAddress and restarts; every commit inside them is a crash point; after the crash nobody can call the wallet (later API events of the history are dropped), the restarted wallet resumes the background work by itself",
 			}, viols, nil
@@ -208,4 +218,38 @@ func mergeFaultCov(cov, t map[string]interface{}, name string) {
 	if e, _ := t["exhaustive"].(bool); !e {
 		cov["exhaustive"] = false
 	}
+}
+
+// longOfflinePass runs the directed "down for 2000+ blocks" histories of C06.
+func longOfflinePass(c *runCtx) (map[string]interface{}, []violation, error) {
+	hists := [][]string{
+		{"x.pa", "d", "xn.1", "x.pa", "xn.2050", "#restart"},
+		{"i.m0", "x.pa", "d", "xn.1", "x.pa", "xn.2050", "#restart"},
+		{"x.ab", "d", "k.rm", "xn.1", "x.pa", "xn.2050", "#restart"},
+		{"x.pc0", "d", "i.m0", "i.s", "xn.1", "x.pc0", "x.pa", "xn.2050", "#restart"},
+		{"x.pa", "d", "xn.2100", "x.pa", "xn.3", "#restart"},
+	}
+	done, inconclusive := 0, 0
+	var viols []violation
+	for _, seed := range []string{"", "s1", "s2", "s3"} {
+		opts := map[string]interface{}{"tasks": true, "seed": seed}
+		res, _, err := runTasks(c.Bin, c.Scratch, "c06", opts, hists, c.Workers, 20, time.Now().Add(20*time.Minute))
+		if err != nil {
+			return nil, nil, err
+		}
+		for i, r := range res {
+			if r == nil {
+				continue
+			}
+			if r.Err != "" {
+				return nil, nil, fmt.Errorf("long-offline history %v (seed %q): %s", hists[i], seed, r.Err)
+			}
+			done++
+			inconclusive += r.Info["inconclusive"]
+			if len(r.Viol) > 0 {
+				viols = append(viols, violation{Hist: hists[i], Viol: r.Viol, Known: r.KnownTags, Detail: r.Detail, Opts: opts})
+			}
+		}
+	}
+	return map[string]interface{}{"histories": len(hists), "wallet_id_orders": 4, "runs_completed": done, "inconclusive_runs": inconclusive, "blocks_mined_while_down": "2052-2104"}, viols, nil
 }
